@@ -76,7 +76,7 @@ CHECKS = {
     "C10": {
         "scenarios": [{"name": "faults"}],
         "accept": ["faults:"],
-        "technique": "Lean: propagated_faults_transparent — for every chain, every height and every finite plan of iterations cut short by a failed request or statement, the run ends in exactly the database of the fault-free run (the retry finds the cache at the height it asks for: getAverages is idempotent); a propagated failure commits nothing; swallow keeps partial effects; regenerated lists of discarded / log-only / blank-assigned errors equal the known ones. Tie: every upstream request and (sampled) SQL statement of chosen blocks — incl. the blocks right after PIP-10, where the averages are a consensus input — fails once on a copy of the pre-block database; the daemon's own retry must reach the fault-free ledger",
+        "technique": "Lean: unchecked_row_loops_are_api_only (regenerated: every result-set loop on the sync path asks rows.Err(); the five that do not are API-only readers); Lean: propagated_faults_transparent — for every chain, every height and every finite plan of iterations cut short by a failed request or statement, the run ends in exactly the database of the fault-free run (the retry finds the cache at the height it asks for: getAverages is idempotent); a propagated failure commits nothing; swallow keeps partial effects; regenerated lists of discarded / log-only / blank-assigned errors equal the known ones. Tie: every upstream request and (sampled) SQL statement of chosen blocks — incl. the blocks right after PIP-10, where the averages are a consensus input — fails once on a copy of the pre-block database; the daemon's own retry must reach the fault-free ledger",
         "assumptions": [SQLITE, "faults are injected at the database/sql driver and at the HTTP transport"],
         "design_ref": "DESIGN.md §7 C10",
     },
